@@ -1,19 +1,20 @@
 import BeffVerif.Props.C05Flat
 /-!
-# C05 — assignability = inclusion, for closed tuples (one tuple type against one tuple type)
+# C05 — assignability = inclusion, for a closed tuple against a list type (tuple, tuple with rest, array)
 
 The list side of `Props/C05Flat.lean`: a tuple type without rest element whose positions are inhabited scalar types, on
-the left of `extends`, against a tuple type without rest element on the right. For every context in which the two atoms
+the left of `extends`, against any list type on the right (a tuple, a tuple with a rest element, an array). For every context in which the two atoms
 are defined and the list memo is empty, and every fuel ≥ 10, `is_subtype` answers, and says *yes* exactly when every value of
-the left tuple — as many elements as positions, each within its type — is a value of the right tuple
-(`closed_tuple_subtype_iff_inclusion`): same length and position-wise inclusion.
+the left tuple — as many elements as positions, each within its type — is a value of the right type
+(`closed_tuple_subtype_iff_inclusion`): the right type has values of that length, and position-wise inclusion (the rest type
+beyond the fixed positions).
 
 The proof follows the engine: the difference of the two atoms is a diagram of one of two shapes, by the order of the atoms
 (`diff_atoms_shape`); `bdd_every_result` walks either shape and ends in the one question "is `a ∧ ¬b` empty"
 (`every_shape`); `list_formula_is_empty` combines the single positive list with nothing and asks `list_inhabited`
-(`formula_single`), which looks at exactly one length, the tuple's own, since there is no rest (`inhabitedNot_closed`), and
+(`formula_single`), which looks at exactly one length, the left tuple's own, since it has no rest (`inhabitedNot_one`), and
 there `fixed_length_list_inhabited` searches a position where `A[i] \ B[i]` is inhabited (`fixed_one`, `fixed_single`, on
-top of the scalar theorem). `covered_tuple_iff` turns length-and-positions into inclusion of value sets (the witness value
+top of the scalar theorem). `covered_list_iff` turns length-and-positions into inclusion of value sets (the witness value
 is built by choice, one inhabitant per position).
 -/
 namespace BeffVerif.C05Tuple
@@ -143,11 +144,11 @@ theorem range_drop (m : Nat) : (List.range (m + 1)).drop m = [m] := by
 def readAt (B : ListAtomic) (len : Nat) : List SemType :=
   (List.range len).map fun i => if i < B.pre.length then B.pre.getD i never else B.items
 
-theorem readAt_getD (B : ListAtomic) (len i : Nat) (hi : i < len) (hl : B.pre.length = len) :
-    (readAt B len).getD i never = B.pre.getD i never := by
+theorem readAt_getD (B : ListAtomic) (len i : Nat) (hi : i < len) :
+    (readAt B len).getD i never = (if i < B.pre.length then B.pre.getD i never else B.items) := by
   unfold readAt
   rw [List.getD_eq_getElem?_getD, List.getElem?_map, List.getElem?_range hi]
-  simp [hl, hi]
+  simp
 
 theorem readAt_wf (B : ListAtomic) (len : Nat) (hB : ∀ t ∈ B.pre, WF t) (hi : WF B.items) : ∀ t ∈ readAt B len, WF t := by
   intro t ht
@@ -161,11 +162,15 @@ theorem readAt_wf (B : ListAtomic) (len : Nat) (hB : ∀ t ∈ B.pre, WF t) (hi 
     | some x => exact hB x (List.mem_of_getElem? hg)
   · exact hi
 
-/-- `!list_inhabited` for a closed positive tuple and ONE closed negative tuple -/
-theorem inhabitedNot_closed (n : Nat) (pre : List SemType) (B : ListAtomic) (c : Ctx)
-    (hpre : ∀ t ∈ pre, Good t) (hB : ∀ t ∈ B.pre, WF t) (hBi : B.items = never) :
+/-- does the negative list type have values of length `len` at all -/
+def applicable (B : ListAtomic) (len : Nat) : Bool :=
+  B.pre.length == len || (B.pre.length < len && !B.items.isNever)
+
+/-- `!list_inhabited` for a closed positive tuple and ONE negative list type (tuple, tuple with rest, array) -/
+theorem inhabitedNot_one (n : Nat) (pre : List SemType) (B : ListAtomic) (c : Ctx)
+    (hpre : ∀ t ∈ pre, Good t) (hB : ∀ t ∈ B.pre, WF t) (hBi : WF B.items) :
     ∃ r, listInhabitedNot (n + 4) pre never [B] c = some (r, c) ∧
-      (r = true ↔ B.pre.length = pre.length ∧ ∀ i, i < pre.length → CoveredAt pre B.pre i) := by
+      (r = true ↔ applicable B pre.length = true ∧ ∀ i, i < pre.length → CoveredAt pre (readAt B pre.length) i) := by
   unfold listInhabitedNot
   simp only [List.isEmpty_cons, Bool.false_eq_true, if_false]
   have hnev : never.isNever = true := by decide
@@ -173,12 +178,13 @@ theorem inhabitedNot_closed (n : Nat) (pre : List SemType) (B : ListAtomic) (c :
   rw [sm_bind_of _ _ c c true (by rfl)]
   simp only [if_true, range_drop, List.foldlM_cons, List.foldlM_nil, Nat.sub_self, List.replicate_zero, List.append_nil,
     Bool.false_eq_true, if_false]
-  by_cases hl : B.pre.length = pre.length
+  by_cases hl : applicable B pre.length = true
   · have happ : (([B].filter fun ng => ng.pre.length == pre.length || (ng.pre.length < pre.length && !ng.items.isNever)).map fun ng =>
         (List.range pre.length).map fun i => if i < ng.pre.length then ng.pre.getD i never else ng.items) = [readAt B pre.length] := by
-      simp [hl, readAt]
+      have : (B.pre.length == pre.length || (decide (B.pre.length < pre.length) && !B.items.isNever)) = true := hl
+      simp [this, readAt]
     rw [happ]
-    obtain ⟨r, hr, hiff⟩ := fixed_single n pre (readAt B pre.length) c hpre (readAt_wf B _ hB (by rw [hBi]; simp [WF, WFLit, never]))
+    obtain ⟨r, hr, hiff⟩ := fixed_single n pre (readAt B pre.length) c hpre (readAt_wf B _ hB hBi)
     refine ⟨!r, ?_, ?_⟩
     · rw [sm_bind_of _ _ c c r (by rw [sm_bind_of _ _ c c r hr]; rfl)]
       rfl
@@ -187,9 +193,7 @@ theorem inhabitedNot_closed (n : Nat) (pre : List SemType) (B : ListAtomic) (c :
       · intro hf i hi
         apply Classical.byContradiction
         intro hc
-        have : r = true := hiff.2 ⟨i, hi, fun h => hc (fun v hv => by
-          have := h v hv
-          rwa [readAt_getD B _ i hi hl] at this)⟩
+        have : r = true := hiff.2 ⟨i, hi, hc⟩
         rw [hf] at this; cases this
       · intro h
         cases hr' : r with
@@ -197,26 +201,24 @@ theorem inhabitedNot_closed (n : Nat) (pre : List SemType) (B : ListAtomic) (c :
         | true =>
           exfalso
           obtain ⟨i, hi, hc⟩ := hiff.1 hr'
-          apply hc
-          intro v hv
-          rw [readAt_getD B _ i hi hl]
-          exact h i hi v hv
+          exact hc (h i hi)
   · have happ : (([B].filter fun ng => ng.pre.length == pre.length || (ng.pre.length < pre.length && !ng.items.isNever)).map fun ng =>
         (List.range pre.length).map fun i => if i < ng.pre.length then ng.pre.getD i never else ng.items) = [] := by
-      have h1 : (B.pre.length == pre.length) = false := by simpa using hl
-      simp [h1, hBi, hnev]
+      have : (B.pre.length == pre.length || (decide (B.pre.length < pre.length) && !B.items.isNever)) = false := by
+        simpa [applicable] using hl
+      simp [this]
     rw [happ]
     refine ⟨false, ?_, by simp [hl]⟩
     rw [sm_bind_of _ _ c c true (by rw [sm_bind_of _ _ c c true (fixed_nil (n + 2) _ c)]; rfl)]
     rfl
 
-/-- `list_formula_is_empty` for one positive and one negative closed tuple -/
+/-- `list_formula_is_empty` for one positive closed tuple and one negative list type -/
 theorem formula_single (n : Nat) (a b : Atom) (A B : ListAtomic) (c : Ctx)
     (hA : c.lists[a.idx]? = some (some A)) (hB : c.lists[b.idx]? = some (some B))
-    (hAp : ∀ t ∈ A.pre, Good t ∧ Inh t) (hAi : A.items = never) (hBp : ∀ t ∈ B.pre, WF t) (hBi : B.items = never) :
+    (hAp : ∀ t ∈ A.pre, Good t ∧ Inh t) (hAi : A.items = never) (hBp : ∀ t ∈ B.pre, WF t) (hBi : WF B.items) :
     ∃ r, listFormulaIsEmpty (n + 5) [a] [b] c = some (r, c) ∧
-      (r = true ↔ B.pre.length = A.pre.length ∧ ∀ i, i < A.pre.length → CoveredAt A.pre B.pre i) := by
-  obtain ⟨r, hr, hiff⟩ := inhabitedNot_closed n A.pre B c (fun t ht => (hAp t ht).1) hBp hBi
+      (r = true ↔ applicable B A.pre.length = true ∧ ∀ i, i < A.pre.length → CoveredAt A.pre (readAt B A.pre.length) i) := by
+  obtain ⟨r, hr, hiff⟩ := inhabitedNot_one n A.pre B c (fun t ht => (hAp t ht).1) hBp hBi
   refine ⟨r, ?_, hiff⟩
   unfold listFormulaIsEmpty
   rw [sm_bind_of _ _ c c [B] (mapM_single _ b c c B (getList_of _ _ _ hB))]
@@ -323,13 +325,28 @@ theorem isEmpty_lstVec (m : Nat) (D : Bdd) (c c' : Ctx) (r : Bool) (h : listIsEm
 def memTuple (P : List SemType) (vs : List Scalar) : Prop :=
   vs.length = P.length ∧ ∀ k, k < P.length → hasScalar (P.getD k never) (vs.getD k .absent) = true
 
-theorem covered_tuple_iff (P Q : List SemType) (hP : ∀ t ∈ P, Inh t) :
-    (Q.length = P.length ∧ ∀ i, i < P.length → CoveredAt P Q i) ↔ ∀ vs, memTuple P vs → memTuple Q vs := by
+/-- a value of a list type (tuple, tuple with rest, array): at least the fixed positions, each element within the type of its
+position, the rest type beyond them (`never` for a closed tuple: no further element) -/
+def memList (B : ListAtomic) (vs : List Scalar) : Prop :=
+  B.pre.length ≤ vs.length ∧
+    ∀ k, k < vs.length → hasScalar (if k < B.pre.length then B.pre.getD k never else B.items) (vs.getD k .absent) = true
+
+theorem covered_list_iff (P : List SemType) (B : ListAtomic) (hP : ∀ t ∈ P, Inh t) :
+    (applicable B P.length = true ∧ ∀ i, i < P.length → CoveredAt P (readAt B P.length) i) ↔
+      ∀ vs, memTuple P vs → memList B vs := by
   constructor
-  · rintro ⟨hl, hc⟩ vs ⟨hlen, hv⟩
-    exact ⟨hlen.trans hl.symm, fun k hk => hc k (hl ▸ hk) _ (hv k (hl ▸ hk))⟩
+  · rintro ⟨ha, hc⟩ vs ⟨hlen, hv⟩
+    have hle : B.pre.length ≤ P.length := by
+      simp only [applicable, Bool.or_eq_true, beq_iff_eq, Bool.and_eq_true, decide_eq_true_eq] at ha
+      rcases ha with h | h
+      · omega
+      · omega
+    refine ⟨by omega, ?_⟩
+    intro k hk
+    have hk' : k < P.length := by omega
+    have := hc k hk' _ (hv k hk')
+    rwa [readAt_getD B _ k hk'] at this
   · intro h
-    -- a witness value: one inhabitant per position
     have hw : ∀ k, k < P.length → ∃ v, hasScalar (P.getD k never) v = true := by
       intro k hk
       have : P.getD k never = P[k] := by simp [List.getD_eq_getElem?_getD, hk]
@@ -342,35 +359,51 @@ theorem covered_tuple_iff (P Q : List SemType) (hP : ∀ t ∈ P, Inh t) :
       have : w.getD k .absent = Classical.choose (hw k hk) := by
         simp [w, List.getD_eq_getElem?_getD, hk]
       rw [this]; exact Classical.choose_spec (hw k hk)
-    have hlen : Q.length = P.length := by
-      have := (h w ⟨hwl, hwk⟩).1
-      omega
-    refine ⟨hlen, ?_⟩
-    intro i hi v hv
-    have hmem : memTuple P (w.set i v) := by
-      refine ⟨by simp [hwl], ?_⟩
-      intro k hk
-      by_cases e : k = i
-      · subst e
-        have : (w.set k v).getD k .absent = v := by simp [List.getD_eq_getElem?_getD, hwl, hk]
-        rw [this]; exact hv
-      · have : (w.set i v).getD k .absent = w.getD k .absent := by
-          simp [List.getD_eq_getElem?_getD, Ne.symm e]
-        rw [this]; exact hwk k hk
-    have := (h _ hmem).2 i (hlen ▸ hi)
-    have hg : (w.set i v).getD i .absent = v := by simp [List.getD_eq_getElem?_getD, hwl, hi]
-    rwa [hg] at this
+    obtain ⟨hle, hmw⟩ := h w ⟨hwl, hwk⟩
+    have hle' : B.pre.length ≤ P.length := by omega
+    refine ⟨?_, ?_⟩
+    · simp only [applicable, Bool.or_eq_true, beq_iff_eq, Bool.and_eq_true, decide_eq_true_eq, Bool.not_eq_true']
+      by_cases e : B.pre.length = P.length
+      · exact Or.inl e
+      · right
+        have hlt : B.pre.length < P.length := by omega
+        refine ⟨hlt, ?_⟩
+        have := hmw B.pre.length (by omega)
+        simp only [Nat.lt_irrefl, if_false] at this
+        cases hn : B.items.isNever with
+        | false => rfl
+        | true =>
+          exfalso
+          have he : B.items = never := by simpa [SemType.isNever] using hn
+          rw [he, hasScalar_never] at this; cases this
+    · intro i hi v hv
+      have hmem : memTuple P (w.set i v) := by
+        refine ⟨by simp [hwl], ?_⟩
+        intro k hk
+        by_cases e : k = i
+        · subst e
+          have : (w.set k v).getD k .absent = v := by simp [List.getD_eq_getElem?_getD, hwl, hk]
+          rw [this]; exact hv
+        · have : (w.set i v).getD k .absent = w.getD k .absent := by
+            simp [List.getD_eq_getElem?_getD, Ne.symm e]
+          rw [this]; exact hwk k hk
+      have := (h _ hmem).2 i (by simp [hwl, hi])
+      have hg : (w.set i v).getD i .absent = v := by simp [List.getD_eq_getElem?_getD, hwl, hi]
+      rw [hg] at this
+      rw [readAt_getD B _ i hi]
+      exact this
 
 -- ---------- the theorem ----------
-/-- **Closed tuples: assignability = inclusion.** `A`, `B` tuple types without rest element, the positions of `A` inhabited
-scalar types, those of `B` well-formed; `i ≠ j` their atoms in a context with an empty list memo. For every fuel ≥ 10
-`is_subtype` answers, and the answer is *yes* exactly when every value of `A` is a value of `B`. -/
+/-- **A closed tuple against a list type: assignability = inclusion.** `A` a tuple type without rest element whose positions
+are inhabited scalar types, `B` any list type — a tuple, a tuple with a rest element, an array — with well-formed element
+types; `i ≠ j` their atoms in a context with an empty list memo. For every fuel ≥ 10 `is_subtype` answers, and the answer is
+*yes* exactly when every value of `A` is a value of `B`. -/
 theorem closed_tuple_subtype_iff_inclusion (n i j : Nat) (A B : ListAtomic) (c : Ctx)
     (hij : i ≠ j) (hAi : c.lists[i]? = some (some A)) (hBj : c.lists[j]? = some (some B))
     (hAp : ∀ t ∈ A.pre, Good t ∧ Inh t) (hAx : A.items = never)
-    (hBp : ∀ t ∈ B.pre, WF t) (hBx : B.items = never) (hmemo : c.memoL = []) :
+    (hBp : ∀ t ∈ B.pre, WF t) (hBx : WF B.items) (hmemo : c.memoL = []) :
     ∃ r c', isSubtype (n + 10) (listFromIdx i) (listFromIdx j) c = some (r, c') ∧
-      (r = true ↔ ∀ vs, memTuple A.pre vs → memTuple B.pre vs) := by
+      (r = true ↔ ∀ vs, memTuple A.pre vs → memList B vs) := by
   obtain ⟨D, hdiff, hshape⟩ := diff_list i j hij
   obtain ⟨r, _, hiff⟩ := formula_single n ⟨listKind, i⟩ ⟨listKind, j⟩ A B c hAi hBj hAp hAx hBp hBx
   have hev : ∀ c1 : Ctx, c1.lists = c.lists → listEvery (n + 5 + 3) D [] [] c1 = some (r, c1) := by
@@ -390,7 +423,7 @@ theorem closed_tuple_subtype_iff_inclusion (n i j : Nat) (A B : ListAtomic) (c :
     rw [sm_bind_of _ _ c c (lstVec D) (by rw [hdiff]; rfl)]
     exact isEmpty_lstVec (n + 9) D c c' r hle
   · rw [hiff]
-    exact covered_tuple_iff A.pre B.pre fun t ht => (hAp t ht).2
+    exact covered_list_iff A.pre B fun t ht => (hAp t ht).2
 
 -- ---------- the statement is about something ----------
 /-- `[string, 1 | 2]` (atom 0), `[string, number]` (atom 1), `[string]` (atom 2) -/
@@ -399,5 +432,10 @@ def exCtx : Ctx := { lists := [some ⟨[{ never with str := .all }, { never with
 example : ((isSubtype 10 (listFromIdx 0) (listFromIdx 1) exCtx).map (·.1)) = some true := by decide +kernel
 example : ((isSubtype 10 (listFromIdx 1) (listFromIdx 0) exCtx).map (·.1)) = some false := by decide +kernel
 example : ((isSubtype 10 (listFromIdx 0) (listFromIdx 2) exCtx).map (·.1)) = some false := by decide +kernel
+/-- against an array and a tuple with rest: `[string, 1 | 2] extends (string | number)[]` — yes; `extends [string, ...string[]]` — no -/
+def exCtx2 : Ctx := { lists := [some ⟨[{ never with str := .all }, { never with num := .some ⟨true, ["1", "2"]⟩ }], never⟩,
+  some ⟨[], { never with str := .all, num := .all }⟩, some ⟨[{ never with str := .all }], { never with str := .all }⟩] }
+example : ((isSubtype 10 (listFromIdx 0) (listFromIdx 1) exCtx2).map (·.1)) = some true := by decide +kernel
+example : ((isSubtype 10 (listFromIdx 0) (listFromIdx 2) exCtx2).map (·.1)) = some false := by decide +kernel
 
 end BeffVerif.C05Tuple
